@@ -58,11 +58,22 @@ func c16Resolve(c *Ctx, rule string) *c16A {
 	fn(&a.pubParsed, "(*ClaimID).PublicClaimID")
 	fn(&a.pubMinted, "(*MintedClaim).PublicClaimID")
 	fn(&a.claimIDAcc, "(*MintedClaim).ClaimID")
-	fn(&a.quote, "quote")
+	a.quote = c.LookupFn("security", "quote") // optional: the renderer may write the quotes itself
 	if !ok {
 		return nil
 	}
 	return a
+}
+
+// stopFns: the anchors a view of the claim code never looks into (quote is deliberately not one: it is part of the renderer).
+func (a *c16A) stopFns() []*ssa.Function {
+	return []*ssa.Function{a.export, a.importInfo, a.importAttrs, a.deriveClaim, a.deriveKey, a.deriveAES,
+		a.parse, a.randomHex, a.claimExp, a.mapCmds, a.newEntry, a.setInherited, a.store, a.secID, a.secInfo, a.secKey, a.raw,
+		a.pubParsed, a.pubMinted, a.claimIDAcc}
+}
+
+func (c *Ctx) c16View(a *c16A, root *ssa.Function) *c06View {
+	return c.c06NewView(root, a.stopFns()...)
 }
 
 // c16ConstStrings resolves the string constants v may be: a constant, or an element of a
@@ -73,137 +84,206 @@ func c16ConstStrings(fn *ssa.Function, v ssa.Value) ([]string, bool) {
 	}
 	var out []string
 	for _, o := range origins(fn, v) {
-		if s, ok := constString(o); ok {
-			out = append(out, s)
+		ss, ok := c16LeafStrings(o)
+		if !ok {
+			return nil, false
+		}
+		out = append(out, ss...)
+	}
+	return out, len(out) > 0
+}
+
+// c16LeafStrings: leaf o is a string constant or a load of an element of a literal array of string constants.
+func c16LeafStrings(o ssa.Value) ([]string, bool) {
+	if s, ok := constString(o); ok {
+		return []string{s}, true
+	}
+	ld, ok := o.(*ssa.UnOp)
+	if !ok || ld.Op != token.MUL {
+		return nil, false
+	}
+	ia, ok := ld.X.(*ssa.IndexAddr)
+	if !ok {
+		return nil, false
+	}
+	root, ok := memRoot(ia).(*ssa.Alloc)
+	if !ok {
+		return nil, false
+	}
+	var out []string
+	for _, r := range *root.Referrers() {
+		ea, ok := r.(*ssa.IndexAddr)
+		if !ok {
 			continue
 		}
-		ld, ok := o.(*ssa.UnOp)
-		if !ok || ld.Op != token.MUL {
-			return nil, false
-		}
-		ia, ok := ld.X.(*ssa.IndexAddr)
-		if !ok {
-			return nil, false
-		}
-		root, ok := memRoot(ia).(*ssa.Alloc)
-		if !ok {
-			return nil, false
-		}
-		n := 0
-		for _, r := range *root.Referrers() {
-			ea, ok := r.(*ssa.IndexAddr)
-			if !ok {
-				continue
-			}
-			for _, u := range *ea.Referrers() {
-				if st, ok := u.(*ssa.Store); ok && st.Addr == ea {
-					s, isC := constString(st.Val)
-					if !isC {
-						return nil, false
-					}
-					out = append(out, s)
-					n++
+		for _, u := range *ea.Referrers() {
+			if st, ok := u.(*ssa.Store); ok && st.Addr == ea {
+				s, isC := constString(st.Val)
+				if !isC {
+					return nil, false
 				}
+				out = append(out, s)
 			}
-		}
-		if n == 0 {
-			return nil, false
 		}
 	}
 	return out, len(out) > 0
 }
 
-// c16HKDF extracts (salt, info) constants and the secret argument of the hkdf.New call in fn.
-func c16HKDF(fn *ssa.Function) (call *ssa.Call, salt, info string, ok bool) {
-	allInstrs(fn, func(_ *ssa.BasicBlock, _ int, in ssa.Instruction) {
+// c16ConstStringsX is c16ConstStrings for a value of a view (a helper's parameter is what its call sites pass).
+func c16ConstStringsX(vw *c06View, v c06FV) ([]string, bool) {
+	var out []string
+	for _, o := range vw.Origins(v) {
+		ss, ok := c16LeafStrings(o.V)
+		if !ok {
+			return nil, false
+		}
+		out = append(out, ss...)
+	}
+	return out, len(out) > 0
+}
+
+// c16HKDF extracts the (salt, info) constants of the hkdf.New call made by fn or a helper of it.
+func (c *Ctx) c16HKDF(a *c16A, fn *ssa.Function) (site c06Site, salt, info string, ok bool) {
+	vw := c.c16View(a, fn)
+	vw.EachInstr(func(fr *c06Frame, in ssa.Instruction) {
 		cl, isC := in.(*ssa.Call)
-		if !isC {
+		if !isC || !c16IsHKDFNew(cl) {
 			return
 		}
-		o := calleeObj(cl)
-		if o == nil || o.Pkg() == nil || o.Pkg().Path() != "golang.org/x/crypto/hkdf" || o.Name() != "New" || len(cl.Call.Args) != 4 {
-			return
-		}
-		s, ok1 := c16BytesConst(fn, cl.Call.Args[2])
-		i, ok2 := c16BytesConst(fn, cl.Call.Args[3])
-		call, salt, info, ok = cl, s, i, ok1 && ok2
+		s, ok1 := c16BytesConstX(vw, c06FV{cl.Call.Args[2], fr})
+		i, ok2 := c16BytesConstX(vw, c06FV{cl.Call.Args[3], fr})
+		site, salt, info, ok = c06Site{cl, fr}, s, i, ok1 && ok2
 	})
 	return
 }
 
-func c16BytesConst(fn *ssa.Function, v ssa.Value) (string, bool) {
-	for _, o := range origins(fn, v) {
-		if s, ok := constString(o); ok {
+func c16IsHKDFNew(cl *ssa.Call) bool {
+	o := calleeObj(cl)
+	return o != nil && o.Pkg() != nil && o.Pkg().Path() == "golang.org/x/crypto/hkdf" && o.Name() == "New" && len(cl.Call.Args) == 4
+}
+
+// c16HasHKDF: g itself calls hkdf.New.
+func c16HasHKDF(g *ssa.Function) bool {
+	found := false
+	allInstrs(g, func(_ *ssa.BasicBlock, _ int, in ssa.Instruction) {
+		if cl, ok := in.(*ssa.Call); ok && c16IsHKDFNew(cl) {
+			found = true
+		}
+	})
+	return found
+}
+
+func c16BytesConstX(vw *c06View, v c06FV) (string, bool) {
+	for _, o := range vw.Origins(v) {
+		if s, ok := constString(o.V); ok {
 			return s, true
 		}
 	}
-	return constString(v)
+	return constString(v.V)
 }
 
-// c16Registration abstracts how fn registers the claim session.
+// c16Registration abstracts how fn (or a helper it hands the parts to) registers the claim session.
 type c16Reg struct {
+	vw    *c06View
 	sets  map[string]string // attribute -> provenance of the value Set on the registered policy
-	entry *ssa.Call         // the NewSessionEntry call
+	entry c06Site           // the NewSessionEntry call
 }
+
+func (r *c16Reg) arg(i int) c06FV { return r.entry.Arg(i) }
 
 func (c *Ctx) c16Registration(a *c16A, fn *ssa.Function) *c16Reg {
-	r := &c16Reg{sets: map[string]string{}}
-	calls := callsIn(fn, a.newEntry.Object())
-	if len(calls) != 1 {
+	vw := c.c16View(a, fn)
+	r := &c16Reg{vw: vw, sets: map[string]string{}}
+	calls := vw.Calls(a.newEntry.Object())
+	if len(calls) != 1 || calls[0].NArgs() != 7 {
 		return nil
 	}
-	r.entry = calls[0].(*ssa.Call)
-	policy := r.entry.Call.Args[3]
-	for _, s := range c06AdSets(fn) {
-		if !c06SameValue(fn, s.Ad, policy) || s.Name == "" {
+	r.entry = calls[0]
+	policy := r.arg(3)
+	for _, s := range vw.Sets() {
+		if s.Name == "" || !vw.Same(s.Ad, policy) {
 			continue
 		}
-		r.sets[s.Name] = c07Prov(fn, s.Val)
+		r.sets[s.Name] = vw.Prov(s.Val)
 	}
 	return r
+}
+
+// c16XSprintf is a fmt.Sprintf call of a view with its boxed arguments.
+type c16XSprintf struct {
+	Site   c06Site
+	Format string
+	Args   []c06FV // V == nil when an argument could not be recovered
+}
+
+func c16SprintfsX(vw *c06View) []c16XSprintf {
+	var out []c16XSprintf
+	vw.EachInstr(func(fr *c06Frame, in ssa.Instruction) {
+		cl, ok := in.(*ssa.Call)
+		if !ok {
+			return
+		}
+		o := calleeObj(cl)
+		if o == nil || o.Pkg() == nil || o.Pkg().Path() != "fmt" || o.Name() != "Sprintf" || len(cl.Call.Args) != 2 {
+			return
+		}
+		sp := c16XSprintf{Site: c06Site{cl, fr}}
+		sp.Format, _ = vw.ConstString(c06FV{cl.Call.Args[0], fr})
+		for _, va := range c07VarArgs(fr.Fn, cl.Call.Args[1]) {
+			sp.Args = append(sp.Args, c06FV{va, fr})
+		}
+		out = append(out, sp)
+	})
+	return out
 }
 
 // C16-R1: both ends register the same session.
 func c16r1(c *Ctx) {
 	const rule = "C16-R1"
-	c.Doc(rule, "MintClaimSession and ImportClaimSession (ImportFileTransferSession for the common part) register symmetrically: key from deriveClaimKeyInfo -> deriveSessionKey(secret, 32) with HKDF salt/info constants equal to deriveAESKey's; policy from ImportSecSessionInfo of the very session_info embedded in / parsed from the claim id; the same attribute constants Set afterwards with equal constant values; entry id = the Sid attribute; expiry through claimExpiration(policy, …), lease 0, SetInherited(true), cache.Store, mapClaimCommands")
+	c.Doc(rule, "MintClaimSession and ImportClaimSession (ImportFileTransferSession for the common part) register symmetrically, directly or through shared helpers: key from deriveClaimKeyInfo -> deriveSessionKey(secret, 32) with HKDF salt/info constants equal to deriveAESKey's; policy from ImportSecSessionInfo of the very session_info embedded in / parsed from the claim id; the same attribute constants Set afterwards with equal constant values; entry id = the Sid attribute; expiry through claimExpiration(policy, …), lease 0, SetInherited(true), cache.Store, mapClaimCommands")
 	a := c16Resolve(c, rule)
 	if a == nil {
 		return
 	}
 	// key derivation chain
-	_, salt, info, ok := c16HKDF(a.deriveKey)
-	_, salt2, info2, ok2 := c16HKDF(a.deriveAES)
+	_, salt, info, ok := c.c16HKDF(a, a.deriveKey)
+	_, salt2, info2, ok2 := c.c16HKDF(a, a.deriveAES)
 	c.Check(ok && ok2 && salt == salt2 && info == info2 && salt != "" && info != "", rule, "hkdf-constants:deriveSessionKey=deriveAESKey",
 		fmt.Sprintf("both derive with salt %q info %q", salt, info), fmt.Sprintf("HKDF constants differ or are not constant: deriveSessionKey(%q,%q) vs deriveAESKey(%q,%q)", salt, info, salt2, info2), a.deriveKey.Pos())
 	nDerive := 0
-	for _, cs := range callsIn(a.deriveClaim, a.deriveKey.Object()) {
+	vdc := c.c16View(a, a.deriveClaim)
+	for _, cs := range vdc.Calls(a.deriveKey.Object()) {
 		nDerive++
-		args := callArgs(cs)
-		l, isC := constInt(args[1])
-		c.Check(len(a.deriveClaim.Params) == 2 && args[0] == ssa.Value(a.deriveClaim.Params[1]) && isC && l == 32, rule, fnName(a.deriveClaim)+"#deriveSessionKey(secret,32)",
+		l, isC := vdc.ConstInt(cs.Arg(1))
+		c.Check(len(a.deriveClaim.Params) == 2 && vdc.IsRootParam(cs.Arg(0), 1) && isC && l == 32, rule, fnName(a.deriveClaim)+"#deriveSessionKey(secret,32)",
 			"the claim key is deriveSessionKey(secret, 32)", "deriveClaimKeyInfo does not derive from its secret parameter with length 32", cs.Pos())
 	}
-	for _, cs := range callsIn(a.impFT, a.deriveKey.Object()) {
+	vft := c.c16View(a, a.impFT)
+	for _, cs := range vft.Calls(a.deriveKey.Object()) {
 		nDerive++
-		args := callArgs(cs)
-		l, isC := constInt(args[1])
-		fromKey := c06AllOrigins(a.impFT, args[0], func(o ssa.Value) bool { return c06CallOf(o, a.secKey.Object()) != nil })
+		l, isC := vft.ConstInt(cs.Arg(1))
+		_, fromKey := vft.CallOf(cs.Arg(0), a.secKey.Object())
 		c.Check(fromKey && isC && l == 32, rule, fnName(a.impFT)+"#deriveSessionKey(secret,32)", "the file-transfer key is deriveSessionKey(claim secret, 32)", "ImportFileTransferSession does not derive from the claim's secret with length 32", cs.Pos())
 	}
-	c.MinCount(rule, "deriveSessionKey call sites in the claim code", nDerive, 2)
-	// other derivation helpers must not appear in the three functions
+	c.MinCount(rule, "deriveSessionKey call sites in the claim code", nDerive, 1)
+	// other derivation helpers must not appear in the three functions (or the helpers they call)
 	for _, fn := range []*ssa.Function{a.mint, a.imp, a.impFT} {
-		allInstrs(fn, func(_ *ssa.BasicBlock, _ int, in ssa.Instruction) {
+		vw := c.c16View(a, fn)
+		for _, fr := range vw.Frames() {
+			if fr != vw.Root && c16HasHKDF(fr.Fn) {
+				c.Violate(rule, fnName(fn)+"#foreign-kdf:"+fnName(fr.Fn), fnName(fn)+" derives key material through "+fnName(fr.Fn)+" instead of deriveClaimKeyInfo/deriveSessionKey: the two ends may derive different keys", fr.Call.Pos())
+			}
+		}
+		vw.EachInstr(func(fr *c06Frame, in ssa.Instruction) {
 			cl, ok := in.(ssa.CallInstruction)
 			if !ok {
 				return
 			}
 			g := calleeFn(cl)
-			if g == nil || g == a.deriveClaim || g == a.deriveKey || g.Blocks == nil || fnPkg(g) != fnPkg(fn) {
+			if g == nil || g == a.deriveClaim || g == a.deriveKey || g.Blocks == nil || fnPkg(g) != fnPkg(fn) || fr.kids[cl] != nil {
 				return
 			}
-			if call, _, _, _ := c16HKDF(g); call != nil {
+			if site, _, _, _ := c.c16HKDF(a, g); site.Call != nil {
 				c.Violate(rule, fnName(fn)+"#foreign-kdf:"+fnName(g), fnName(fn)+" derives key material through "+fnName(g)+" instead of deriveClaimKeyInfo/deriveSessionKey: the two ends may derive different keys", cl.Pos())
 			}
 		})
@@ -216,66 +296,64 @@ func c16r1(c *Ctx) {
 			return
 		}
 		regs[fn] = r
-		e := r.entry
-		args := e.Call.Args // id, addr, keyInfo, policy, expiration, lease, tag
-		// keyInfo
+		vw, e := r.vw, r.entry
+		// id, addr, keyInfo, policy, expiration, lease, tag
 		if fn != a.impFT {
-			kc := c06CallOf(args[2], a.deriveClaim.Object())
-			good := kc != nil && c06SameValue(fn, kc.Call.Args[0], args[3])
+			kc, ok := vw.CallOf(r.arg(2), a.deriveClaim.Object())
+			good := ok && vw.Same(kc.Arg(0), r.arg(3))
 			c.Check(good, rule, fnName(fn)+"#keyInfo<-deriveClaimKeyInfo(policy,secret)", "the entry's key is deriveClaimKeyInfo(policy, secret)", "the entry's key is not deriveClaimKeyInfo of the registered policy", e.Pos())
 			// policy = ImportSecSessionInfo(x)
-			pc := c06CallOf(args[3], a.importInfo.Object())
-			c.Check(pc != nil, rule, fnName(fn)+"#policy<-ImportSecSessionInfo", "the policy is ImportSecSessionInfo(session_info)", "the registered policy is not built by ImportSecSessionInfo", e.Pos())
-			if pc != nil {
-				src := pc.Call.Args[0]
+			pc, ok := vw.CallOf(r.arg(3), a.importInfo.Object())
+			c.Check(ok, rule, fnName(fn)+"#policy<-ImportSecSessionInfo", "the policy is ImportSecSessionInfo(session_info)", "the registered policy is not built by ImportSecSessionInfo", e.Pos())
+			if ok {
+				src := pc.Arg(0)
 				if fn == a.mint {
 					// the same text that is embedded in the claim id
 					emb := false
-					for _, sp := range c16Sprintfs(fn) {
-						for _, va := range c07VarArgs(fn, sp.Call.Args[1]) {
-							if va != nil && c06SameValue(fn, va, src) {
+					for _, sp := range c16SprintfsX(vw) {
+						for _, va := range sp.Args {
+							if va.V != nil && vw.Same(va, src) {
 								emb = true
 							}
 						}
 					}
-					c.Check(emb && c06CallOf(src, a.export.Object()) != nil, rule, fnName(fn)+"#policy-text=embedded-text", "the policy is re-imported from the exported text that is embedded in the claim id",
+					_, fromExport := vw.CallOf(src, a.export.Object())
+					c.Check(emb && fromExport, rule, fnName(fn)+"#policy-text=embedded-text", "the policy is re-imported from the exported text that is embedded in the claim id",
 						"the minted policy is not built from the same session_info text that is embedded in the claim id: the importer will build a different policy", pc.Pos())
 				} else {
-					sc := c06CallOf(src, a.secInfo.Object())
-					good := sc != nil && c06CallOf(callArgs(sc)[0], a.parse.Object()) != nil
+					sc, ok := vw.CallOf(src, a.secInfo.Object())
+					good := false
+					if ok {
+						_, good = vw.CallOf(sc.Arg(0), a.parse.Object())
+					}
 					c.Check(good, rule, fnName(fn)+"#policy-text=parsed-text", "the policy is imported from the claim id's session_info", "the imported policy is not built from ParseClaimIDStrict(claimID).SecSessionInfo()", pc.Pos())
 				}
 			}
 			// expiry
-			ec := c06CallOf(args[4], a.claimExp.Object())
-			c.Check(ec != nil && c06SameValue(fn, ec.Call.Args[0], args[3]), rule, fnName(fn)+"#expiry<-claimExpiration(policy)", "expiry is claimExpiration(policy, …)", "the entry's expiry is not claimExpiration(policy, …): the two ends expire the session at different times", e.Pos())
+			ec, ok := vw.CallOf(r.arg(4), a.claimExp.Object())
+			c.Check(ok && vw.Same(ec.Arg(0), r.arg(3)), rule, fnName(fn)+"#expiry<-claimExpiration(policy)", "expiry is claimExpiration(policy, …)", "the entry's expiry is not claimExpiration(policy, …): the two ends expire the session at different times", e.Pos())
 		}
-		l, isC := constInt(args[5])
+		l, isC := vw.ConstInt(r.arg(5))
 		c.Check(isC && l == 0, rule, fnName(fn)+"#lease=0", "claim sessions have no lease", "the claim session is registered with a lease on this side", e.Pos())
 		// Sid attribute == entry id
-		sid := ""
-		for _, s := range c06AdSets(fn) {
-			if s.Name == "Sid" && c06SameValue(fn, s.Ad, args[3]) {
-				sid = c07Prov(fn, s.Val)
-			}
-		}
-		c.Check(sid != "" && sid == c07Prov(fn, args[0]), rule, fnName(fn)+"#Sid=entry-id", "the Sid attribute is the id the entry is stored under", "the Sid attribute and the id the entry is stored under differ: "+sid+" vs "+c07Prov(fn, args[0]), e.Pos())
+		sid := r.sets["Sid"]
+		c.Check(sid != "" && sid == vw.Prov(r.arg(0)), rule, fnName(fn)+"#Sid=entry-id", "the Sid attribute is the id the entry is stored under", "the Sid attribute and the id the entry is stored under differ: "+sid+" vs "+vw.Prov(r.arg(0)), e.Pos())
 		// SetInherited(true), Store, mapClaimCommands
+		entryV := c06FV{e.Call.Value(), e.F}
 		inh, st, mp := false, false, false
-		for _, cs := range callsIn(fn, a.setInherited.Object()) {
-			v, isB := constBool(callArgs(cs)[1])
-			if callArgs(cs)[0] == ssa.Value(e) && isB && v {
+		for _, cs := range vw.Calls(a.setInherited.Object()) {
+			v, isB := vw.ConstBool(cs.Arg(1))
+			if vw.Same(cs.Arg(0), entryV) && isB && v {
 				inh = true
 			}
 		}
-		for _, cs := range callsIn(fn, a.store.Object()) {
-			if callArgs(cs)[1] == ssa.Value(e) && len(fn.Params) > 0 && callArgs(cs)[0] == ssa.Value(fn.Params[0]) {
+		for _, cs := range vw.Calls(a.store.Object()) {
+			if vw.Same(cs.Arg(1), entryV) && vw.IsRootParam(cs.Arg(0), 0) {
 				st = true
 			}
 		}
-		for _, cs := range callsIn(fn, a.mapCmds.Object()) {
-			ma := callArgs(cs)
-			if len(ma) == 4 && ma[0] == ssa.Value(fn.Params[0]) && c06SameValue(fn, ma[1], args[3]) && c07Prov(fn, ma[2]) == c07Prov(fn, args[0]) {
+		for _, cs := range vw.Calls(a.mapCmds.Object()) {
+			if cs.NArgs() == 4 && vw.IsRootParam(cs.Arg(0), 0) && vw.Same(cs.Arg(1), r.arg(3)) && vw.Prov(cs.Arg(2)) == vw.Prov(r.arg(0)) {
 				mp = true
 			}
 		}
@@ -310,28 +388,19 @@ func c16r1(c *Ctx) {
 	}
 }
 
-func c16Sprintfs(fn *ssa.Function) []*ssa.Call {
-	var out []*ssa.Call
-	allInstrs(fn, func(_ *ssa.BasicBlock, _ int, in ssa.Instruction) {
-		if cl, ok := in.(*ssa.Call); ok {
-			if o := calleeObj(cl); o != nil && o.Pkg() != nil && o.Pkg().Path() == "fmt" && o.Name() == "Sprintf" {
-				out = append(out, cl)
-			}
-		}
-	})
-	return out
-}
-
-// c16StringsCalls lists calls to strings.<name> in fn with their constant string arguments.
+// c16StrCall is a call to strings.<name> with its constant string arguments.
 type c16StrCall struct {
 	Name   string
 	Consts []string
 	Call   *ssa.Call
+	F      *c06Frame
 }
 
-func c16StringsCalls(fn *ssa.Function) []c16StrCall {
+// c16StringsCalls lists the strings.* calls of every frame of the view (and of the closures nested in them).
+func c16StringsCalls(vw *c06View) []c16StrCall {
 	var out []c16StrCall
-	for _, f := range withClosures(fn) {
+	seen := map[*ssa.Function]bool{}
+	scan := func(f *ssa.Function, fr *c06Frame) {
 		allInstrs(f, func(_ *ssa.BasicBlock, _ int, in ssa.Instruction) {
 			cl, ok := in.(*ssa.Call)
 			if !ok {
@@ -341,14 +410,30 @@ func c16StringsCalls(fn *ssa.Function) []c16StrCall {
 			if o == nil || o.Pkg() == nil || o.Pkg().Path() != "strings" {
 				return
 			}
-			sc := c16StrCall{Name: o.Name(), Call: cl}
+			sc := c16StrCall{Name: o.Name(), Call: cl, F: fr}
 			for _, a := range cl.Call.Args {
-				if s, ok := constString(a); ok {
+				if fr != nil {
+					if s, ok := vw.ConstString(c06FV{a, fr}); ok {
+						sc.Consts = append(sc.Consts, s)
+					}
+				} else if s, ok := constString(a); ok {
 					sc.Consts = append(sc.Consts, s)
 				}
 			}
 			out = append(out, sc)
 		})
+	}
+	for _, fr := range vw.Frames() {
+		seen[fr.Fn] = true
+	}
+	for _, fr := range vw.Frames() {
+		scan(fr.Fn, fr)
+		for _, cf := range withClosures(fr.Fn) {
+			if !seen[cf] {
+				seen[cf] = true
+				scan(cf, nil)
+			}
+		}
 	}
 	return out
 }
@@ -356,16 +441,17 @@ func c16StringsCalls(fn *ssa.Function) []c16StrCall {
 // C16-R2: export and import tables are inverse.
 func c16r2(c *Ctx) {
 	const rule = "C16-R2"
-	c.Doc(rule, "every attribute name ExportSecSessionInfo emits is consumed by ImportSecSessionInfo; the ','->'.' rewrite of CryptoMethodsList is undone by '.'->','; RemoteVersion->ShortVersion is undone by ShortVersion->RemoteVersion; the delimiters the renderer writes ([ = ; ] and the quote) are the ones ImportSessionInfoAttributes splits on")
+	c.Doc(rule, "every attribute name ExportSecSessionInfo emits is consumed by ImportSecSessionInfo; the ','->'.' rewrite of CryptoMethodsList is undone by '.'->','; RemoteVersion->ShortVersion is undone by ShortVersion->RemoteVersion; the delimiters the renderer writes ([ = ; ] and the quote) are the ones ImportSessionInfoAttributes splits on (each side looked at together with the helpers it calls)")
 	a := c16Resolve(c, rule)
 	if a == nil {
 		return
 	}
+	vex, vim, vat := c.c16View(a, a.export), c.c16View(a, a.importInfo), c.c16View(a, a.importAttrs)
 	emitted := map[string]bool{}
 	undec := false
-	allInstrs(a.export, func(_ *ssa.BasicBlock, _ int, in ssa.Instruction) {
+	vex.EachInstr(func(fr *c06Frame, in ssa.Instruction) {
 		if mu, ok := in.(*ssa.MapUpdate); ok {
-			ks, ok := c16ConstStrings(a.export, mu.Key)
+			ks, ok := c16ConstStringsX(vex, c06FV{mu.Key, fr})
 			if !ok {
 				undec = true
 				return
@@ -379,24 +465,15 @@ func c16r2(c *Ctx) {
 		c.Undecided(rule, fnName(a.export)+"#emitted-names", "an emitted attribute name is not a constant", a.export.Pos())
 	}
 	consumed := map[string]bool{}
-	for _, f := range withClosures(a.importInfo) {
-		allInstrs(f, func(_ *ssa.BasicBlock, _ int, in ssa.Instruction) {
-			switch x := in.(type) {
-			case *ssa.Lookup:
-				if s, ok := constString(x.Index); ok {
-					consumed[s] = true
-				}
-			case *ssa.Call:
-				if g := calleeFn(x); g != nil && g.Parent() == a.importInfo {
-					for _, arg := range x.Call.Args {
-						if s, ok := constString(arg); ok {
-							consumed[s] = true
-						}
-					}
+	vim.EachInstr(func(fr *c06Frame, in ssa.Instruction) {
+		if lk, ok := in.(*ssa.Lookup); ok {
+			if ks, ok := c16ConstStringsX(vim, c06FV{lk.Index, fr}); ok {
+				for _, k := range ks {
+					consumed[k] = true
 				}
 			}
-		})
-	}
+		}
+	})
 	var en []string
 	for k := range emitted {
 		en = append(en, k)
@@ -405,60 +482,83 @@ func c16r2(c *Ctx) {
 	for _, k := range en {
 		c.Check(consumed[k], rule, "export->import:"+k, "exported attribute "+k+" is consumed by ImportSecSessionInfo", "ExportSecSessionInfo emits "+k+", which ImportSecSessionInfo never reads: that part of the policy is lost on import", a.export.Pos())
 	}
-	c.MinCount(rule, "exported attribute names", len(en), 7)
+	c.MinCount(rule, "exported attribute names", len(en), 5)
 	// paired rewrites
-	hasRepl := func(fn *ssa.Function, from, to string) bool {
-		for _, sc := range c16StringsCalls(fn) {
+	hasRepl := func(vw *c06View, from, to string) bool {
+		for _, sc := range c16StringsCalls(vw) {
 			if sc.Name == "ReplaceAll" && len(sc.Consts) == 2 && sc.Consts[0] == from && sc.Consts[1] == to {
 				return true
+			}
+			// strings.Replace(s, from, to, -1) is ReplaceAll
+			if sc.Name == "Replace" && len(sc.Consts) == 2 && sc.Consts[0] == from && sc.Consts[1] == to && len(sc.Call.Call.Args) == 4 {
+				if n, ok := constInt(sc.Call.Call.Args[3]); ok && n < 0 {
+					return true
+				}
 			}
 		}
 		return false
 	}
-	c.Check(hasRepl(a.export, ",", ".") && hasRepl(a.importInfo, ".", ","), rule, "rewrite:CryptoMethodsList", "',' -> '.' on export is undone by '.' -> ',' on import", "the CryptoMethodsList delimiter rewrite is not mirrored between export and import", a.export.Pos())
-	readsAttr := func(fn *ssa.Function, name string) bool {
+	c.Check(hasRepl(vex, ",", ".") && hasRepl(vim, ".", ","), rule, "rewrite:CryptoMethodsList", "',' -> '.' on export is undone by '.' -> ',' on import", "the CryptoMethodsList delimiter rewrite is not mirrored between export and import", a.export.Pos())
+	readsAttr := func(vw *c06View, name string) bool {
 		found := false
-		allInstrs(fn, func(_ *ssa.BasicBlock, _ int, in ssa.Instruction) {
+		vw.EachInstr(func(fr *c06Frame, in ssa.Instruction) {
 			if ex, ok := in.(*ssa.Extract); ok {
-				if _, _, n, _, ok := c06AttrLookup(ex); ok && n == name {
+				if _, _, n, _, ok := vw.AttrLookup(c06FV{ex, fr}); ok && n == name {
 					found = true
 				}
 			}
 		})
 		return found
 	}
-	setsAttr := func(fn *ssa.Function, name string) bool {
-		for _, s := range c06AdSets(fn) {
+	setsAttr := func(vw *c06View, name string) bool {
+		for _, s := range vw.Sets() {
 			if s.Name == name {
 				return true
 			}
 		}
 		return false
 	}
-	c.Check(readsAttr(a.export, "RemoteVersion") && emitted["ShortVersion"] && consumed["ShortVersion"] && setsAttr(a.importInfo, "RemoteVersion"), rule, "rewrite:RemoteVersion<->ShortVersion",
+	c.Check(readsAttr(vex, "RemoteVersion") && emitted["ShortVersion"] && consumed["ShortVersion"] && setsAttr(vim, "RemoteVersion"), rule, "rewrite:RemoteVersion<->ShortVersion",
 		"RemoteVersion is exported as ShortVersion and imported back as RemoteVersion", "the RemoteVersion/ShortVersion mapping is not mirrored between export and import", a.export.Pos())
-	// delimiters
+	// delimiters: bytes the renderer writes, and the constants it concatenates around values (the quote)
 	written := map[string]bool{}
-	allInstrs(a.export, func(_ *ssa.BasicBlock, _ int, in ssa.Instruction) {
-		if cl, ok := in.(*ssa.Call); ok {
-			if o := calleeObj(cl); o != nil && o.Name() == "WriteByte" && o.Pkg() != nil && o.Pkg().Path() == "strings" {
-				if b, ok := constInt(cl.Call.Args[1]); ok {
-					written[string(rune(b))] = true
+	concat := func(f *ssa.Function) {
+		allInstrs(f, func(_ *ssa.BasicBlock, _ int, in ssa.Instruction) {
+			if bo, ok := in.(*ssa.BinOp); ok && bo.Op == token.ADD {
+				for _, v := range []ssa.Value{bo.X, bo.Y} {
+					if s, ok := constString(v); ok {
+						written[s] = true
+					}
 				}
 			}
-		}
-	})
-	allInstrs(a.quote, func(_ *ssa.BasicBlock, _ int, in ssa.Instruction) {
-		if bo, ok := in.(*ssa.BinOp); ok && bo.Op == token.ADD {
-			for _, v := range []ssa.Value{bo.X, bo.Y} {
-				if s, ok := constString(v); ok {
-					written[s] = true
+		})
+	}
+	for _, fr := range vex.Frames() {
+		fr := fr
+		allInstrs(fr.Fn, func(_ *ssa.BasicBlock, _ int, in ssa.Instruction) {
+			if cl, ok := in.(*ssa.Call); ok {
+				if o := calleeObj(cl); o != nil && o.Pkg() != nil && o.Pkg().Path() == "strings" && len(cl.Call.Args) == 2 {
+					switch o.Name() {
+					case "WriteByte", "WriteRune":
+						if b, ok := vex.ConstInt(c06FV{cl.Call.Args[1], fr}); ok {
+							written[string(rune(b))] = true
+						}
+					case "WriteString":
+						// a constant piece of punctuation (names and values are not constants)
+						if str, ok := vex.ConstString(c06FV{cl.Call.Args[1], fr}); ok && len(str) == 1 {
+							written[str] = true
+						}
+					}
 				}
 			}
-		}
-	})
+		})
+		concat(fr.Fn)
+	}
+	if a.quote != nil {
+		concat(a.quote)
+	}
 	split := map[string]bool{}
-	for _, sc := range c16StringsCalls(a.importAttrs) {
+	for _, sc := range c16StringsCalls(vat) {
 		for _, s := range sc.Consts {
 			split[s] = true
 		}
@@ -471,71 +571,122 @@ func c16r2(c *Ctx) {
 	for _, k := range wl {
 		c.Check(split[k], rule, fmt.Sprintf("delimiter:%q", k), fmt.Sprintf("the parser splits on %q", k), fmt.Sprintf("the renderer writes %q but ImportSessionInfoAttributes never splits on / strips it", k), a.export.Pos())
 	}
-	c.MinCount(rule, "delimiters written by the renderer", len(wl), 5)
+	c.MinCount(rule, "delimiters written by the renderer", len(wl), 1)
 }
 
 // C16-R3: grammar invariants.
 func c16r3(c *Ctx) {
 	const rule = "C16-R3"
-	c.Doc(rule, "the claim id is Sprintf(\"%s#%s%s\", sessionID, ExportSecSessionInfo(...), randomHexKey(...)); ExportSecSessionInfo returns its text only past the 'contains no #' guard; randomHexKey returns hex.EncodeToString output; ParseClaimIDStrict splits with strings.LastIndex on '#' and ']' only")
+	c.Doc(rule, "the claim id is Sprintf(\"%s#%s%s\", sessionID, ExportSecSessionInfo(...), randomHexKey(...)) (assembled in MintClaimSession or a helper of it); ExportSecSessionInfo returns its text only past the 'contains no #' guard; randomHexKey returns hex.EncodeToString output; ParseClaimIDStrict (with its helpers) splits with strings.LastIndex on '#' and ']' only")
 	a := c16Resolve(c, rule)
 	if a == nil {
 		return
 	}
 	// assembly
 	n := 0
-	for _, sp := range c16Sprintfs(a.mint) {
-		f, _ := constString(sp.Call.Args[0])
-		va := c07VarArgs(a.mint, sp.Call.Args[1])
-		if len(va) != 3 {
+	vm := c.c16View(a, a.mint)
+	reg := c.c16Registration(a, a.mint)
+	for _, sp := range c16SprintfsX(vm) {
+		va := sp.Args
+		if len(va) != 3 || va[2].V == nil {
 			continue
 		}
-		if va[2] == nil || c06CallOf(va[2], a.randomHex.Object()) == nil {
+		if _, ok := vm.CallOf(va[2], a.randomHex.Object()); !ok {
 			continue
 		}
 		n++
-		c.Check(f == "%s#%s%s", rule, fnName(a.mint)+"#claim-id-format", "the claim id is id '#' info secret", fmt.Sprintf("the claim id is assembled with format %q, not \"%%s#%%s%%s\": the last-'#'/last-']' split no longer recovers the three parts", f), sp.Pos())
-		c.Check(va[1] != nil && c06CallOf(va[1], a.export.Object()) != nil, rule, fnName(a.mint)+"#claim-id-info", "the middle part is ExportSecSessionInfo's text", "the middle part of the claim id is not ExportSecSessionInfo's result", sp.Pos())
+		c.Check(sp.Format == "%s#%s%s", rule, fnName(a.mint)+"#claim-id-format", "the claim id is id '#' info secret", fmt.Sprintf("the claim id is assembled with format %q, not \"%%s#%%s%%s\": the last-'#'/last-']' split no longer recovers the three parts", sp.Format), sp.Site.Pos())
+		_, fromExport := vm.CallOf(va[1], a.export.Object())
+		c.Check(va[1].V != nil && fromExport, rule, fnName(a.mint)+"#claim-id-info", "the middle part is ExportSecSessionInfo's text", "the middle part of the claim id is not ExportSecSessionInfo's result", sp.Site.Pos())
 		// the id part is what the session is registered under
-		if r := c.c16Registration(a, a.mint); r != nil {
-			c.Check(va[0] != nil && c07Prov(a.mint, va[0]) == c07Prov(a.mint, r.entry.Call.Args[0]), rule, fnName(a.mint)+"#claim-id-sid", "the leading part is the registered session id", "the leading part of the claim id is not the id the session is registered under", sp.Pos())
+		if reg != nil {
+			c.Check(va[0].V != nil && vm.Prov(va[0]) == reg.vw.Prov(reg.arg(0)), rule, fnName(a.mint)+"#claim-id-sid", "the leading part is the registered session id", "the leading part of the claim id is not the id the session is registered under", sp.Site.Pos())
 		}
 	}
 	c.MinCount(rule, "claim id assembly sites", n, 1)
 	// '#' guard in ExportSecSessionInfo
-	cuts := newCuts()
-	ng := 0
-	for _, sc := range c16StringsCalls(a.export) {
-		if sc.Name == "Contains" && len(sc.Consts) == 1 && sc.Consts[0] == "#" {
-			ng++
-			_, fe := boolEdges(a.export, sc.Call)
-			// the guarded text must be what is returned
-			for _, t := range c.successTargets(a.export) {
-				c.Check(c06SameValue(a.export, sc.Call.Call.Args[0], t.Ret.Results[0]), rule, fnName(a.export)+"#guarded-text=returned-text", "the '#' guard inspects the returned text", "the '#' guard inspects a different value from the one returned", sc.Call.Pos())
-			}
-			cuts.AddEdges(fe...)
+	vex := c.c16View(a, a.export)
+	isGuard := func(fr *c06Frame, v ssa.Value) (*ssa.Call, bool) {
+		cl, ok := v.(*ssa.Call)
+		if !ok {
+			return nil, false
 		}
+		o := calleeObj(cl)
+		if o == nil || o.Pkg() == nil || o.Pkg().Path() != "strings" || len(cl.Call.Args) != 2 {
+			return nil, false
+		}
+		switch o.Name() {
+		case "Contains", "ContainsAny":
+			s, isC := vex.ConstString(c06FV{cl.Call.Args[1], fr})
+			return cl, isC && s == "#"
+		case "ContainsRune":
+			b, isC := vex.ConstInt(c06FV{cl.Call.Args[1], fr})
+			return cl, isC && b == '#'
+		}
+		return nil, false
 	}
-	c.mustPassReturns(rule, a.export, c.successTargets(a.export), cuts, "the false edge of strings.Contains(info, \"#\")")
+	ng := 0
+	vex.EachInstr(func(fr *c06Frame, in ssa.Instruction) {
+		v, ok := in.(ssa.Value)
+		if !ok {
+			return
+		}
+		cl, ok := isGuard(fr, v)
+		if !ok {
+			return
+		}
+		ng++
+		// the guarded text must be what is returned
+		for _, t := range c.successTargets(a.export) {
+			c.Check(vex.Same(c06FV{cl.Call.Args[0], fr}, vex.fv(t.Ret.Results[0])), rule, fnName(a.export)+"#guarded-text=returned-text", "the '#' guard inspects the returned text", "the '#' guard inspects a different value from the one returned", cl.Pos())
+		}
+	})
+	noHash := &c06Fact{Name: "no '#'", Cond: func(fr *c06Frame, at Atom) (bool, bool) {
+		if at.Op != token.ILLEGAL || at.X == nil {
+			return false, false
+		}
+		_, ok := isGuard(fr, at.X)
+		return false, ok
+	}}
+	vex.MustPassReturns(rule, c.successTargets(a.export), noHash, 1, "", "the false edge of strings.Contains(info, \"#\")")
 	c.MinCount(rule, "'#' guards in ExportSecSessionInfo", ng, 1)
 	// randomHexKey
+	vrh := c.c16View(a, a.randomHex)
 	for _, t := range c.successTargets(a.randomHex) {
-		good := c06AllOrigins(a.randomHex, t.Ret.Results[0], func(o ssa.Value) bool {
-			cl, ok := o.(*ssa.Call)
+		good := vrh.AllOrigins(vrh.fv(t.Ret.Results[0]), func(o c06FV) bool {
+			cl, ok := o.V.(*ssa.Call)
 			if !ok {
 				return false
 			}
 			ob := calleeObj(cl)
-			return ob != nil && ob.Pkg() != nil && ob.Pkg().Path() == "encoding/hex" && ob.Name() == "EncodeToString"
+			if ob == nil || ob.Pkg() == nil {
+				return false
+			}
+			if ob.Pkg().Path() == "encoding/hex" && ob.Name() == "EncodeToString" {
+				return true
+			}
+			// fmt.Sprintf("%x", buf) renders the same lowercase hex text
+			if ob.Pkg().Path() == "fmt" && ob.Name() == "Sprintf" && len(cl.Call.Args) == 2 {
+				f, isC := vrh.ConstString(c06FV{cl.Call.Args[0], o.F})
+				return isC && f == "%x"
+			}
+			return false
 		})
-		c.Check(good, rule, fnName(a.randomHex)+"#hex", "the secret is hex text (no '#', '[' or ']')", "the secret is not hex.EncodeToString output: it may contain '#' or ']' and break the split", t.Ret.Pos())
+		c.Check(good, rule, fnName(a.randomHex)+"#hex", "the secret is hex text (no '#', '[' or ']')", "the secret is not hex.EncodeToString (or %x) output: it may contain '#' or ']' and break the split", t.Ret.Pos())
 	}
 	// parser
 	var idx []string
-	for _, sc := range c16StringsCalls(a.parse) {
+	for _, sc := range c16StringsCalls(c.c16View(a, a.parse)) {
 		switch sc.Name {
 		case "LastIndex":
 			idx = append(idx, "LastIndex:"+strings.Join(sc.Consts, ""))
+		case "LastIndexByte":
+			// the same split with a byte separator
+			if len(sc.Call.Call.Args) == 2 {
+				if b, ok := constInt(sc.Call.Call.Args[1]); ok {
+					idx = append(idx, "LastIndex:"+string(rune(b)))
+				}
+			}
 		case "Index", "IndexByte", "SplitN", "Split", "Cut", "IndexAny", "SplitAfter", "SplitAfterN", "Fields":
 			c.Violate(rule, fnName(a.parse)+"#split:"+sc.Name, "ParseClaimIDStrict splits with strings."+sc.Name+": a session id containing '#' (every real startd claim) is cut at the wrong place", sc.Call.Pos())
 		}
@@ -640,46 +791,70 @@ func c16r4(c *Ctx) {
 		c.Violate(rule, "secret-flow:"+k, "a value derived from the claim secret reaches "+h.What+" in "+fnName(h.Fn), h.At.Pos())
 	}
 	c.Ok(rule, "secret-flow#summary", fmt.Sprintf("%d seed values followed through %d functions (%d tainted values); %d sink hits", nSeeds, len(t.Fns), t.Values, len(t.Hits)), token.NoPos)
-	c.MinCount(rule, "secret seed values", nSeeds, 8)
-	c.MinCount(rule, "functions the secret flows through", len(t.Fns), 6)
+	c.MinCount(rule, "secret seed values", nSeeds, 2)
+	c.MinCount(rule, "functions the secret flows through", len(t.Fns), 1)
 }
 
 // C16-R5: the only varying input of the key derivation is the secret.
 func c16r5(c *Ctx) {
 	const rule = "C16-R5"
-	c.Doc(rule, "deriveSessionKey feeds HKDF with its sessionKey parameter as the only non-constant input and returns the buffer HKDF filled; MintClaimSession passes the randomHexKey result, ImportClaimSession passes ClaimID.SecSessionKey(): a different secret yields a different key, which resumption then requires (C06-R1)")
+	c.Doc(rule, "deriveSessionKey feeds HKDF with its sessionKey parameter as the only non-constant input and returns the buffer HKDF filled; MintClaimSession passes the randomHexKey result, ImportClaimSession passes ClaimID.SecSessionKey() (possibly through helpers): a different secret yields a different key, which resumption then requires (C06-R1)")
 	a := c16Resolve(c, rule)
 	if a == nil {
 		return
 	}
-	call, _, _, ok := c16HKDF(a.deriveKey)
-	if call == nil || !ok {
+	hk, _, _, ok := c.c16HKDF(a, a.deriveKey)
+	if hk.Call == nil || !ok {
 		c.Undecided(rule, fnName(a.deriveKey)+"#hkdf", "no hkdf.New call with constant salt/info found", a.deriveKey.Pos())
 		return
 	}
 	dk := a.deriveKey
-	c.Check(mustDepend(dk, call.Call.Args[1], func(v ssa.Value) bool { return v == ssa.Value(dk.Params[0]) }), rule, fnName(dk)+"#hkdf-secret<-param", "HKDF's input key material is the sessionKey parameter", "HKDF's input key material does not depend on the sessionKey parameter", call.Pos())
+	vdk := hk.F.view
+	if len(dk.Params) == 0 {
+		c.Undecided(rule, fnName(dk)+"#hkdf-secret<-param", "deriveSessionKey has no parameter", dk.Pos())
+		return
+	}
+	c.Check(vdk.MustDepend(hk.Arg(1), func(v c06FV) bool { return v.F == vdk.Root && v.V == ssa.Value(dk.Params[0]) }), rule, fnName(dk)+"#hkdf-secret<-param", "HKDF's input key material is the sessionKey parameter", "HKDF's input key material does not depend on the sessionKey parameter", hk.Pos())
 	for _, t := range c.successTargets(dk) {
-		good := c06MustDepend(dk, t.Ret.Results[0], func(v ssa.Value) bool { return v == ssa.Value(call) })
+		good := vdk.MustDepend(vdk.fv(t.Ret.Results[0]), func(v c06FV) bool {
+			if v.V == ssa.Value(hk.Call.Value()) && v.F == hk.F {
+				return true
+			}
+			// the buffer was filled by a helper that was handed the reader
+			if cl, ok := v.V.(*ssa.Call); ok && hk.F != v.F {
+				return c06Lift(hk.F, hk.Call, v.F) == ssa.Instruction(cl)
+			}
+			return false
+		})
 		c.Check(good, rule, fmt.Sprintf("%s#return%d<-hkdf", fnName(dk), retOrdinal(dk, t.Ret)), "the returned key is HKDF output", "the returned key does not depend on the HKDF reader", t.Ret.Pos())
 	}
 	n := 0
 	for k, fn := range []*ssa.Function{a.mint, a.imp} {
 		src := []*ssa.Function{a.randomHex, a.secKey}[k]
-		for _, cs := range callsIn(fn, a.deriveClaim.Object()) {
+		vw := c.c16View(a, fn)
+		derives := vw.Calls(a.deriveClaim.Object())
+		c.MinCount(rule, "deriveClaimKeyInfo call sites in "+fnName(fn), len(derives), 1)
+		for _, cs := range derives {
 			n++
-			good := c06AllOrigins(fn, callArgs(cs)[1], func(o ssa.Value) bool { return c06CallOf(o, src.Object()) != nil })
+			_, good := vw.CallOf(cs.Arg(1), src.Object())
 			c.Check(good, rule, fnName(fn)+"#deriveClaimKeyInfo:secret<-"+src.Name(), "the derivation input is "+src.Name()+"()", "the secret handed to deriveClaimKeyInfo is not "+src.Name()+"()", cs.Pos())
 		}
-	}
-	c.MinCount(rule, "deriveClaimKeyInfo call sites", n, 2)
-	// the secret embedded in the claim id is the one the key is derived from (mint)
-	for _, sp := range c16Sprintfs(a.mint) {
-		va := c07VarArgs(a.mint, sp.Call.Args[1])
-		if len(va) == 3 && va[2] != nil && c06CallOf(va[2], a.randomHex.Object()) != nil {
-			for _, cs := range callsIn(a.mint, a.deriveClaim.Object()) {
-				c.Check(c06SameValue(a.mint, va[2], callArgs(cs)[1]), rule, fnName(a.mint)+"#embedded-secret=derivation-secret", "the secret embedded in the claim id is the one the key is derived from", "the claim id embeds a different secret from the one the local key is derived from", sp.Pos())
+		if fn != a.mint {
+			continue
+		}
+		// the secret embedded in the claim id is the one the key is derived from (mint)
+		for _, sp := range c16SprintfsX(vw) {
+			va := sp.Args
+			if len(va) != 3 || va[2].V == nil {
+				continue
+			}
+			if _, ok := vw.CallOf(va[2], a.randomHex.Object()); !ok {
+				continue
+			}
+			for _, cs := range derives {
+				c.Check(vw.Same(va[2], cs.Arg(1)), rule, fnName(a.mint)+"#embedded-secret=derivation-secret", "the secret embedded in the claim id is the one the key is derived from", "the claim id embeds a different secret from the one the local key is derived from", sp.Site.Pos())
 			}
 		}
 	}
+	_ = n
 }
